@@ -46,7 +46,7 @@ def gen_script(rng, opts=None):
     ns = opts.get("strategies", rng.randrange(1, 3))
     steps = [["book", "OPEN"]]
     def place():
-        return ["place", rng.randrange(ns), rng.choice([101, 202]), rng.choice(["BACK", "LAY"]), rng.choice([200, 300, 400]), rng.choice([400, 500, 1000]),
+        return ["place", rng.randrange(ns), rng.choice([101, 202, 202, 303]), rng.choice(["BACK", "LAY"]), rng.choice([200, 300, 400]), rng.choice([400, 500, 1000]),
                 (rng.randrange(4) if rng.random() < opts.get("p_trade", 0.35) else None), rng.random() < opts.get("p_async", 0.12)]
     def req():
         k = rng.choices(["cancel", "update", "replace"], opts.get("w_req", [0.4, 0.2, 0.4]))[0]
@@ -71,7 +71,7 @@ def gen_script(rng, opts=None):
         elif r < 0.83:
             steps.append(["xfill", rng.randrange(6), rng.choice([1, 2])] if rng.random() < 0.7 else ["xlapse", rng.randrange(6)])
         elif r < 0.85:
-            steps.append(["xforeign", rng.randrange(ns) if rng.random() < 0.75 else "unknown-strategy", 900 + rng.randrange(6), rng.choice([101, 202])])
+            steps.append(["xforeign", rng.randrange(ns) if rng.random() < 0.75 else "unknown-strategy", 900 + rng.randrange(6), rng.choice([101, 202, 303])])
         elif r < 0.87 and opts.get("limits"):
             steps.append(["advance", rng.choice([1, 2, 5, 10])])
         elif r < 0.995 or not opts.get("restart"):
